@@ -88,7 +88,7 @@ def classify(prop_name, desc, line, built, target):
     return ['C02']
 
 
-def prove(built, fn, verbose=False, trace=False, keep=False, case=None):
+def prove(built, fn, verbose=False, trace=False, keep=False, case=None, extra_defs=(), build_only=False):
     """run one proof; returns a result dict"""
     cfg = built.cfg
     if '@' in fn:
@@ -137,12 +137,13 @@ def prove(built, fn, verbose=False, trace=False, keep=False, case=None):
                 return res
             loops_needed += nl
     res['loops'] = loops_needed
-    wd = os.path.join(built.wd, 'p_' + fn + ('@' + case if case else ''))
+    wd = os.path.join(built.wd, 'p_' + fn + ('@' + case if case else '') + ('_replay' if build_only else ''))
     os.makedirs(wd, exist_ok=True)
     t0 = time.time()
     defs = cfg_defines(cfg) + ['-DTARGET_%s' % fn]
     if case:
         defs.append('-DCASE_%s' % case)
+    defs += list(extra_defs)
     for d in getattr(sp, 'defines', []):
         defs.append('-D' + d)
     gb = os.path.join(wd, 'a.gb'); gb2 = os.path.join(wd, 'b.gb')
@@ -163,6 +164,8 @@ def prove(built, fn, verbose=False, trace=False, keep=False, case=None):
         res['status'] = 'undecided'; res['reason'] = 'goto-instrument failed: ' + (se or so)[-1500:]
         return res
     flags = [f for f in CBMC_CHECKS if f not in cfg.get('drop_checks', [])] + list(sp.flags)
+    if build_only:
+        return {'gb2': gb2, 'flags': [f for f in flags if ('--no' + f[1:]) not in sp.flags and not f.startswith('--no-')], 'wd': wd}
     flags = [f for f in flags if ('--no' + f[1:]) not in sp.flags and not f.startswith('--no-')]
     res['checker_cmd'] = 'goto-cc --function harness_%s | goto-instrument --dfcc harness_%s --enforce-contract %s %s%s| cbmc %s (postconditions solved one per solver instance, the remaining obligations together)' % (
         fn, fn, fn, ''.join('--replace-call-with-contract %s ' % g for g in replaced), '--apply-loop-contracts ' if loops_needed else '', ' '.join(flags))
@@ -300,6 +303,23 @@ def prove_cases(built, fn, verbose, trace, keep):
         res['status'] = 'failed' if res['failed'] else 'proved'; res['reason'] = None
     # the normal exit need not be reachable in every case, but must be in at least one
     return res
+
+
+def replay_violation(built, fn, prop_name, prop):
+    """small-model counterexample of a failed obligation, replayed natively against the real header"""
+    sys.path.insert(0, os.path.join(ROOT, 'replay'))
+    import replay
+    b = prove(built, fn, extra_defs=['-DREPLAY_SMALL'], build_only=True)
+    if 'gb2' not in b:
+        return {'reproduced': False, 'reason': 'small model could not be built: %s' % b.get('reason')}
+    ce = replay.small_counterexample(b['gb2'], b['flags'], prop_name)
+    if ce is None:
+        shutil.rmtree(b['wd'], ignore_errors=True)
+        return {'reproduced': False, 'reason': 'the obligation does not fail in the small model (inline capacity <= 4, capacity <= 8, counts <= 8): the verifier gives no natively replayable input'}
+    nat = replay.native(prop, fn, built.cfg, ce, b['wd'])
+    nat['counterexample'] = {k: v for k, v in ce.items()}
+    shutil.rmtree(b['wd'], ignore_errors=True)
+    return nat
 
 
 def build(cfgname, wd):
